@@ -1734,11 +1734,6 @@ static Node *stmt(Token **rest, Token *tok) {
 
     enter_scope();
 
-    char *brk = brk_label;
-    char *cont = cont_label;
-    brk_label = node->brk_label = new_unique_name();
-    cont_label = node->cont_label = new_unique_name();
-
     if (is_typename(tok)) {
       Type *basety = declspec(&tok, tok, NULL);
       node->init = declaration(&tok, tok, basety, NULL);
@@ -1753,6 +1748,13 @@ static Node *stmt(Token **rest, Token *tok) {
     if (!equal(tok, ")"))
       node->inc = expr(&tok, tok);
     tok = skip(tok, ")");
+
+    // The clauses are not part of the loop body: a break or continue in
+    // a statement expression there belongs to the enclosing statement.
+    char *brk = brk_label;
+    char *cont = cont_label;
+    brk_label = node->brk_label = new_unique_name();
+    cont_label = node->cont_label = new_unique_name();
 
     node->then = stmt(rest, tok);
 
